@@ -91,5 +91,8 @@ class PersistentWorker(Worker):
 
         self._get_result() # this is required to sync user state in some cases (fetch results, at least persistant process)
         ctor_args, ctor_kwargs = self._get_restart_args()
+        # nobody may find this object through the registry while it has no attributes (it registers again in __init__)
+        with Worker._children_lock:
+            Worker._active_children = [child for child in Worker._active_children if child is not self]
         self.__dict__.clear()
         type(self).__init__(self, *ctor_args, results_pipe=results_pipe, **ctor_kwargs, _is_restart=True)
